@@ -20,6 +20,7 @@ type FuncResult struct {
 	UsedSpecs    []string
 	AssumedSpecs []string
 	Inlined      []string
+	AssumedClauses []string
 	Secs         float64
 	Bounded      bool
 	regionTerms  map[string]string
@@ -42,7 +43,7 @@ func (P *Prog) verifyFunc(key string, c11 bool) (res *FuncResult) {
 	}
 	x := &Exec{P: P, em: newEmitter(), top: fn, topSpec: spec, topKey: key, leaves: map[string]*LeafInfo{},
 		written: map[string]*WriteSet{}, notes: map[string]bool{}, assumedPanics: map[string]bool{}, strLits: map[string]string{},
-		usedSpecs: map[string]bool{}, assumedSpecs: map[string]bool{}, inlined: map[string]bool{}, inC11: c11}
+		usedSpecs: map[string]bool{}, assumedSpecs: map[string]bool{}, inlined: map[string]bool{}, inC11: c11, assumedClauses: map[string]bool{}}
 	res.Em = x.em
 	if spec != nil {
 		x.defProps = spec.Props
@@ -74,6 +75,10 @@ func (P *Prog) verifyFunc(key string, c11 bool) (res *FuncResult) {
 		for n := range x.inlined {
 			res.Inlined = append(res.Inlined, n)
 		}
+		for n := range x.assumedClauses {
+			res.AssumedClauses = append(res.AssumedClauses, n)
+		}
+		sort.Strings(res.AssumedClauses)
 		sort.Strings(res.Inlined)
 	}()
 
@@ -104,6 +109,11 @@ func (P *Prog) verifyFunc(key string, c11 bool) (res *FuncResult) {
 			x.em.assume(x.evalBool(env, c.Expr))
 		}
 	}
+	if spec != nil {
+		for _, gs := range spec.GhostSets {
+			x.setGhost(st, gs.Name, x.evalExpr(env, gs.Value))
+		}
+	}
 	res.regionTerms = map[string]string{}
 	if P.known != nil {
 		for _, f := range P.known.Findings {
@@ -130,6 +140,9 @@ func (P *Prog) verifyFunc(key string, c11 bool) (res *FuncResult) {
 		post := x.newEnv(fr, out, nil)
 		post.old = x.entry
 		x.bindResults(post, val, resultNames(fn.Signature))
+		for _, gs := range spec.GhostExits {
+			x.setGhost(out, gs.Name, x.evalExpr(post, gs.Value))
+		}
 		for _, c := range spec.Ensures {
 			p := x.evalBool(post, c.Expr)
 			x.oblige(fr, out, "ensures:"+c.Label, "ensures", p, c)
@@ -254,7 +267,7 @@ func (P *Prog) verifyLemma(key string, spec *FuncSpec) (res *FuncResult) {
 	res = &FuncResult{Key: key}
 	x := &Exec{P: P, em: newEmitter(), topSpec: spec, topKey: key, leaves: map[string]*LeafInfo{},
 		written: map[string]*WriteSet{}, notes: map[string]bool{}, assumedPanics: map[string]bool{}, strLits: map[string]string{},
-		usedSpecs: map[string]bool{}, assumedSpecs: map[string]bool{}, inlined: map[string]bool{}}
+		usedSpecs: map[string]bool{}, assumedSpecs: map[string]bool{}, inlined: map[string]bool{}, assumedClauses: map[string]bool{}}
 	res.Em = x.em
 	x.defProps = spec.Props
 	defer func() {
